@@ -45,6 +45,10 @@ type Bias struct {
 	SaveCS int
 	// ReplayCS is the chance per 100 that the run ends with a change-set replay step.
 	ReplayCS int
+	// EmptyKey is the chance per 100 that one key of the pool is the empty
+	// (non-nil) key. Only for runs that never enable the fast index: its lookup
+	// refuses empty keys, and ICS-23 cannot prove them.
+	EmptyKey int
 }
 
 // DefaultBias is the C01-style general workload.
@@ -158,6 +162,9 @@ func NewGen(r *sim.Rand, b Bias) *Gen {
 		n = r.Range(9, mm)
 	}
 	g.pool = KeyPool(r, n)
+	if b.EmptyKey > 0 && r.Chance(b.EmptyKey, 100) {
+		g.pool[r.Intn(len(g.pool))] = []byte{}
+	}
 	switch b.Order {
 	case "asc":
 		sortKeys(g.pool)
